@@ -582,3 +582,32 @@ def r6_extend_as_bytes(text):
     """V.extend( E.as_bytes(), )   ->   vt_extend_slice(&mut V, E.as_bytes());     (E may span lines)"""
     pat = re.compile(r'\b(%s)\.extend\(\s*((?:[^;]|\n)*?)\.as_bytes\(\),?\s*\);' % IDENT)
     return pat.subn(lambda m: 'vt_extend_slice(&mut %s, %s.as_bytes());' % (m.group(1), m.group(2)), text)
+
+
+@rule('R6_tensor')
+def r6_tensor(text):
+    """named idioms of tokenization::padding_mask / data::pad_ids:
+       L.iter().max().copied().unwrap_or(0)                       -> vt_max_or0(L)
+       IDS.iter().map(|t| t.as_ref().len()).max().unwrap_or_default() -> vt_max_len(IDS)
+       V.extend(repeat(X).take(N))                                -> vt_extend_repeat(&mut V, X, N)
+       V.extend(E.as_ref().iter().cloned())                       -> vt_extend_cloned(&mut V, E.as_ref())
+       for &x in L {                                              -> for vt_r in L { let x = *vt_r;          (R3)"""
+    n = 0
+    text, k = re.subn(r'\b(%s)\.iter\(\)\.max\(\)\.copied\(\)\.unwrap_or\(0\)' % IDENT, r'vt_max_or0(\1)', text)
+    n += k
+    text, k = re.subn(r'\b(%s)\s*\.iter\(\)\s*\.map\(\|(%s)\| (%s)\.as_ref\(\)\.len\(\)\)\s*\.max\(\)\s*\.unwrap_or_default\(\)' % ((IDENT,) * 3),
+                      lambda m: 'vt_max_len(%s)' % m.group(1) if m.group(2) == m.group(3) else m.group(0), text)
+    n += k
+    text, k = re.subn(r'\b(%s)\.extend\(repeat\((%s)\)\.take\(([^;\n]+)\)\);' % (IDENT, r'[A-Za-z_0-9]+'), r'vt_extend_repeat(&mut \1, \2, \3);', text)
+    n += k
+    text, k = re.subn(r'\b(%s)\.extend\((%s)\.as_ref\(\)\.iter\(\)\.cloned\(\)\);' % (IDENT, IDENT), r'vt_extend_cloned(&mut \1, \2.as_ref());', text)
+    n += k
+    text, k = re.subn(r'([ \t]*)for &(%s) in (%s) \{' % (IDENT, IDENT), lambda m: '%sfor vt_r in %s {\n%s    let %s = *vt_r;' % (m.group(1), m.group(3), m.group(1), m.group(2)), text)
+    n += k
+    return text, n
+
+
+@rule('R6_as_ref')
+def r6_as_ref(text):
+    """X.as_ref()  ->  vt_as_slice(X)      (AsRef<[T]>::as_ref on a generic `impl AsRef<[T]>`)"""
+    return re.subn(r'\b(%s)\.as_ref\(\)' % IDENT, r'vt_as_slice(\1)', text)
